@@ -11,6 +11,3 @@ Proof. unfold tg_arrg_pstrain_meaning_ok. prove tg_arrg_pstrain. Qed.
 Lemma tg_arrf_pstrain_meaning_proof : tg_arrf_pstrain_meaning_ok.
 Proof. unfold tg_arrf_pstrain_meaning_ok. prove tg_arrf_pstrain. Qed.
 
-Lemma tg_arrk_pstrain_index_proof : tg_arrk_pstrain_index_ok.
-Proof. unfold tg_arrk_pstrain_index_ok. prove tg_arrk_pstrain. Qed.
-
